@@ -655,11 +655,17 @@ pub fn write(spec: &FileSpec, ch: &mut Chooser) -> (Vec<u8>, Layout) {
             let mut body: Vec<u8> = vec![];
             let mut offs = vec![];
             let osep = w.ch.choose("os.obj_sep", 3);
-            for (num, o) in &members {
+            // 7.5.7 does not require white space after the last member: the data may end with its last token
+            let no_tail = w.ch.choose("os.tail", 2) == 1;
+            let n_members = members.len();
+            for (mi, (num, o)) in members.iter().enumerate() {
                 offs.push((*num, body.len()));
                 let mut sub = W { out: Vec::new(), ch: &mut *w.ch, empty_name_end: usize::MAX };
                 sub.object(o);
                 body.extend_from_slice(&sub.out);
+                if no_tail && mi + 1 == n_members {
+                    break;
+                }
                 body.extend_from_slice(match osep {
                     1 => b"\n",
                     2 => b"\r\n",
